@@ -156,12 +156,43 @@ def states_for(d, rng, n_mixed):
             if kind != 'absent':
                 S.append((l, binding(l, kind, rng.randrange(8))))
         out.append(tuple(S))
+    # the lifter's named multiplications and divisions over leaves: every combination of boundary constants (signs, 0, 1, small values with a
+    # remainder, the extremes) - quotient rounding, sign rules and the divide-error conditions live in these combinations
+    import re as _re
+    if d[0] == 'op' and _re.match(r'^(u|i)mul\d+(_hi|_lo)?$|^i?(div|rem)\d+$', d[1]) and all(x[0] == 'id' for x in d[2]):
+        import itertools as _it
+        w = d[2][0][2]
+        K = sorted(set([0, 1, 2, 3, 7, (1 << (w - 1)) - 1, 1 << (w - 1), (1 << (w - 1)) + 1, (1 << w) - 3, (1 << w) - 2, (1 << w) - 1]))
+        for vs in _it.product(K, repeat=len(d[2])):
+            out.append(tuple((l, ('int', l[2], v)) for l, v in zip(d[2], vs)))
     seen, res = set(), []
     for S in out:
         if S not in seen:
             seen.add(S)
             res.append(S)
     return res
+
+def division_faults(d, S):
+    """does some division of the tree, in the state S, have a definedness condition (divisor != 0, quotient fits) that is FALSE outright?"""
+    from bounded import gen
+    from liftvc import den as D
+    import z3
+    st = D.State()
+    try:
+        sub = st.copy()
+        for leaf, b in S:
+            if leaf[0] == 'id':
+                sub.regs[(leaf[1], leaf[2])] = D.den(gen.build(b), st)
+        mem = st.mem
+        for leaf, b in S:
+            if leaf[0] == 'mem':
+                mem = D.mem_write(mem, D.fit(D.den(gen.build(leaf[1]), st), 32), D.den(gen.build(b), st), leaf[2] // 8)
+        sub.mem = mem
+        n0 = len(sub.defined)
+        D.den(gen.build(d), sub)
+    except Exception:
+        return False
+    return any(z3.is_false(z3.simplify(c)) for c in sub.defined)
 
 def check(d, S, timeout_ms=10000):
     from bounded import gen
@@ -189,6 +220,10 @@ def check(d, S, timeout_ms=10000):
             signal.alarm(0)
             return ('failed', 'noraise', 'eval_expr raised %s: %s' % (type(ex).__name__, str(ex)[:100]), dict(wit, **{'raise': True}))
     except Exception as ex:
+        if isinstance(ex, ValueError) and str(ex) in ('div by 0', 'Divide Error') and division_faults(d, S):
+            # a division whose operands are constants in this state and whose divisor is 0 / whose quotient does not fit: the evaluator
+            # reports the divide error, there is no value to compare
+            return ('ok', 'sem', 'divide error', None)
         return ('failed', 'noraise', 'eval_expr raised %s: %s' % (type(ex).__name__, str(ex)[:100]), dict(wit, **{'raise': True}))
     finally:
         signal.alarm(0)
